@@ -167,10 +167,10 @@ def gen_cases(rng, tier):
     branches = [(r, l) for r in ["fc-dneff", "fc-vdneff", "ld-dneff", "ld-vdneff"] for l in ["kL", "L", "N"]] + [("ld-kL", "L"), ("ld-kL", "N")]
     for r, l in branches:
         cases.append(_design(rng, tier, r, l))
-    for _ in range(40 if tier == "quick" else 400):
+    for _ in range(30 if tier == "quick" else 400):
         cases.append(_design(rng, tier))
     # clean designs for the closed-form clauses: vdneff route, unchirped, centre on the grid
-    for _ in range(24 if tier == "quick" else 200):
+    for _ in range(20 if tier == "quick" else 200):
         c = _design(rng, tier, rng.choice(["fc-vdneff", "ld-vdneff"]))
         sps, R = c["sps"], c["R"]
         fs = sps * R
@@ -185,7 +185,7 @@ def gen_cases(rng, tier):
         c["kw"] = _kwargs(c["route"], c["length"], _f0() + c["m"] * fs / c["n"], kL, vd, 1.0)
         cases.append(c)
     # the same grating through the six vdneff routes (and the dneff / kL-only routes: same design, same response)
-    for _ in range(20 if tier == "quick" else 150):
+    for _ in range(16 if tier == "quick" else 150):
         sps, R = rng.choice(GVS)
         fs = sps * R
         n = rng.choice([256, 512] if tier == "quick" else [256, 512, 1024, 2048, 4096])
